@@ -1,35 +1,11 @@
 use slotted_egraphs::*;
-use std::collections::BTreeSet;
-
-define_language! {
-    pub enum L { F(AppliedId) = "f", H(AppliedId, AppliedId) = "h", Symbol(Symbol), }
-}
-
-#[derive(Default)]
-struct Leaves;
-impl Analysis<L> for Leaves {
-    type Data = BTreeSet<String>;
-    fn make(eg: &EGraph<L, Self>, enode: &L) -> Self::Data {
-        let mut s = BTreeSet::new();
-        if let L::Symbol(x) = enode { s.insert(format!("{x:?}")); }
-        for x in enode.applied_id_occurrences() { s.extend(eg.analysis_data(x.id).iter().cloned()); }
-        s
-    }
-    fn merge(mut l: Self::Data, r: Self::Data) -> Self::Data { l.extend(r); l }
-}
-
-fn add(eg: &mut EGraph<L, Leaves>, s: &str) -> AppliedId { eg.add_expr(RecExpr::parse(s).unwrap()) }
-
+use verif_harness::langs::T;
 fn main() {
-    let mut eg = EGraph::<L, Leaves>::default();
-    let p = add(&mut eg, "p");
-    let n = add(&mut eg, "(h p c)");
-    eg.union(&p, &n); // P = {p, h(P, C)}
-    let c = add(&mut eg, "c");
-    let d = add(&mut eg, "d");
-    add(&mut eg, "(f d)");
-    add(&mut eg, "(h d d)"); // D is the bigger class, C is merged into D
-    eg.union(&c, &d); // h(P, C) is re-made, improves P, re-queues itself under the stale shape
-    println!("data of P: {:?}", eg.analysis_data(p.id));
-    eg.check();
+    let mut eg: EGraph<T> = EGraph::default();
+    let t = std::env::args().nth(1).unwrap();
+    let p = std::env::args().nth(2).unwrap();
+    eg.add_expr(RecExpr::parse(&t).unwrap());
+    let pat: Pattern<T> = Pattern::parse(&p).unwrap();
+    for m in ematch_all(&eg, &pat) { println!("{m:?}"); }
+    eg.dump();
 }
